@@ -198,6 +198,25 @@ async fn run(script: Value, out_path: String) -> i32 {
                 let errs = eng.sm.wait_for_flush_completion().await;
                 emit(&mut out, json!({"i": i, "op": "flush_wait", "errors": errs.len()}));
             }
+            "park_at" => {
+                for n in st["names"].as_array().cloned().unwrap_or_default() {
+                    snel_db::verif::park_at(n.as_str().unwrap_or(""));
+                }
+            }
+            "wait_parked" => {
+                let name = st["name"].as_str().unwrap_or("").to_string();
+                let ms = st.get("ms").and_then(|a| a.as_u64()).unwrap_or(5000);
+                let n2 = name.clone();
+                let ok = tokio::task::spawn_blocking(move || snel_db::verif::wait_parked(&n2, ms)).await.unwrap_or(false);
+                emit(&mut out, json!({"i": i, "op": "wait_parked", "name": name, "parked": ok, "tag": tag}));
+            }
+            "release" => {
+                let name = st["name"].as_str().unwrap_or("");
+                snel_db::verif::release(name);
+                if st.get("rearm").and_then(|a| a.as_bool()).unwrap_or(false) {
+                    snel_db::verif::park_at(name);
+                }
+            }
             "clock_secs" => {
                 snel_db::verif::set_clock_secs(st.get("t").and_then(|t| t.as_u64()));
             }
